@@ -1261,7 +1261,8 @@ func (st *Runtime) evalPipeCallExpression(baseExpr reflect.Value, args CallArgs,
 		return reflect.Value{}, errors.New("base of call expression is invalid value")
 	}
 	if funcType.AssignableTo(baseExpr.Type()) {
-		return baseExpr.Interface().(Func)(Arguments{runtime: st, args: args, pipedVal: pipedArg}), nil
+		// also a plain func(Arguments) reflect.Value (VarMap.Set instead of SetFunc) is called like a Func
+		return baseExpr.Convert(funcType).Interface().(Func)(Arguments{runtime: st, args: args, pipedVal: pipedArg}), nil
 	}
 
 	argValues, err := st.evaluateArgs(baseExpr.Type(), args, pipedArg)
